@@ -191,6 +191,11 @@ class PreAggregationMatcher:
         if query_metric.name not in preagg_measures:
             return False
 
+        # The materialization statement aggregates the bare measure expression: a measure-level
+        # filter is not part of the rollup, so a filtered measure cannot be derived from it
+        if query_metric.filters:
+            return False
+
         # Additional checks based on aggregation type
         agg_type = query_metric.agg
 
